@@ -38,7 +38,13 @@ def interpret(repo, gamma_zero=False):
         if len(cmps) == 1 and isinstance(cmps[0].ops[0], (ast.Lt, ast.LtE)) and \
                 isinstance(cmps[0].comparators[0], ast.Constant) and cmps[0].comparators[0].value == 0:
             decided.append(txt)
-            return False
+            # the accepted path: no negative discriminant - whichever way the test is spelled (`if any(d < 0)` / `if not any(d < 0)`)
+            nots = 0
+            t_ = test
+            while isinstance(t_, ast.UnaryOp) and isinstance(t_.op, ast.Not):
+                nots += 1
+                t_ = t_.operand
+            return nots % 2 == 1
         return None
     ip.branch_policy = policy
     kw = dict(psi=psi, abs_sq_psi=a2, mu=mu, epsilon=eps, gamma=gamma, u=u, dt=dt, psi_laplacian=lap)
@@ -143,6 +149,13 @@ def check_refusals(ctx, f, decided):
     tests = [n for n in own_nodes(fn) if isinstance(n, ast.If) and any(
         isinstance(c, ast.Compare) and isinstance(c.comparators[0], ast.Constant) and c.comparators[0].value == 0
         and isinstance(c.ops[0], (ast.Lt, ast.LtE, ast.Gt, ast.GtE)) for c in ast.walk(n.test))]
+    # `result = None ... result = (psi, x) ... return result`: the value sites are the non-None definitions of the returned name
+    if len(val_rets) == 1 and isinstance(val_rets[0].value, ast.Name):
+        nm_ = val_rets[0].value.id
+        defs_ = [n for n in own_nodes(fn) if isinstance(n, ast.Assign) and any(isinstance(t_, ast.Name) and t_.id == nm_ for t_ in n.targets)]
+        nonnone = [d for d in defs_ if not (isinstance(d.value, ast.Constant) and d.value.value is None)]
+        if defs_ and len(nonnone) == 1 and len(defs_) > 1:
+            val_rets = nonnone
     ok = len(val_rets) == 1 and len(tests) >= 1
     L = loc(f, fn)
     if not ok:
@@ -157,7 +170,12 @@ def check_refusals(ctx, f, decided):
     vnode = g.node_of(vr).id
     # the value return must be reachable only through the 'false' edge of the test
     p = g.path(g.entry, vnode, skip_edges=())
-    via_true = g.path(tnode, vnode, skip_edges=("false",))
+    nots_ = 0
+    t__ = t.test
+    while isinstance(t__, ast.UnaryOp) and isinstance(t__.op, ast.Not):
+        nots_ += 1
+        t__ = t__.operand
+    via_true = g.path(tnode, vnode, skip_edges=("true" if nots_ % 2 else "false",))
     ok = tnode in dom[vnode] and via_true is None
     ctx.ob("R02.5", "value return dominated by the false branch of the negative-discriminant test", ok,
            detail={"test": norm(t.test), "return": norm(vr),
